@@ -50,6 +50,16 @@ CHECKS = {
              "(docstring disclaims exactness). Expressions that are undefined at a point (cf of DiscreteUniform at t=0) are counted as refusals, not wrong values.",
         design="DESIGN.md section 4 C08",
     ),
+    "C11": dict(
+        technique="property-based testing: random finitely supported laws / generated programs / cumulant vectors against definitions (central moments, set-partition cumulants, exact pmf tail probabilities, Gaussian-moment integration, textbook Cornish-Fisher)",
+        text="Six generated sub-checks: moment conversions on random laws up to order 64 against the definitions (a different algorithm than Polar's recursion), "
+             "central moments / cumulants of program goals and their printed lines against the exact pmf of the reference interpreter at every n, validity of every "
+             "printed upper and lower tail bound against exact tail probabilities (assumption evaluated too), Gram-Charlier normalisation and first k moments by exact "
+             "Gaussian integration, Cornish-Fisher against the textbook expansion for 3-5 cumulants.",
+        note=TRUSTED + " mpmath (400-digit Taylor expansion of the log-mgf for cumulants of order 10-24; erfinv). Cumulant conversion above order 24 is not judged; "
+             "program level: orders 2-4, n<=6, finitely supported programs only.",
+        design="DESIGN.md section 4 C11",
+    ),
 }
 
 PENDING = {}
